@@ -145,7 +145,12 @@ func (g *Gen) Make(kind string, kids, hidden []*Node) *Node {
 		n.N = []int{r.Intn(100)}
 	case "http":
 		n.N = []int{400 + r.Intn(200)}
-	case "grpc", "gstatus", "gstatuswrap", "grpcerr", "gogoerr":
+		if r.Intn(8) == 0 {
+			n.N[0] = 0 // the zero value is a legal code too
+		}
+	case "grpc":
+		n.N = []int{r.Intn(17)} // including codes.OK
+	case "gstatus", "gstatuswrap", "grpcerr", "gogoerr":
 		n.N = []int{1 + r.Intn(16)}
 	}
 	return n
